@@ -24,6 +24,8 @@ def r1_return_discipline(cx):
         cx.bad(fn, "rule.process binds the result of self.invoke(broker)", construct="(no r = self.invoke(broker))")
         return
     rv = U(inv[0].targets[0])
+    nn = [r for r in rets if U(r.value) == "make_none()"]
+    cx.require(bool(nn), nn[0] if nn else fn, "a rule returning None yields the 'none' response (make_none), it is not rejected as a non-response", construct=short(nn[0]) if nn else "(no return make_none())")
     for r in rets:
         t = U(r.value)
         g = set(guard_texts(r))
@@ -32,7 +34,7 @@ def r1_return_discipline(cx):
         elif t == "make_none()":
             cx.require(("%s is None" % rv, True) in g, r, "a rule returning None yields the 'none' response")
         elif t == rv:
-            ok = ("isinstance(%s, Response)" % rv, True) in g and ("%s is None" % rv, False) in g
+            ok = ("isinstance(%s, Response)" % rv, True) in g       # an instance of Response is not None: no separate test needed on this path
             cx.require(ok, r, "the rule's own value is returned only after it was checked to be a Response (and not None)", construct="return %s guarded by %s" % (rv, sorted(g)))
         else:
             cx.bad(r, "rule.process returns only _make_skip(...), make_none() or the validated response")
@@ -84,9 +86,12 @@ def r2_construction(cx):
     ok = len(over) == 1 and len(normal) == 1
     if ok:
         g = set(guard_texts(over[0]))
-        ok = ("length > settings.defaults['max_detail_length']", True) in g
+        lim = "settings.defaults['max_detail_length']"
+        ok = bool(set([("length > %s" % lim, True), ("length <= %s" % lim, False), ("%s < length" % lim, True), ("%s >= length" % lim, False)]) & g)
+        gn = set(guard_texts(normal[0]))
+        ok = ok and bool(set([("length > %s" % lim, False), ("length <= %s" % lim, True), ("%s < length" % lim, False), ("%s >= length" % lim, True)]) & gn)
         st = [a for a in walk_body(af.body) if isinstance(a, ast.Assign) and U(a.targets[0]) == "%s['max_detail_length_error']" % p[2]]
-        ok = ok and len(st) == 1 and U(st[0].value) == "length" and syn_dominates(st[0], over[0])
+        ok = ok and len(st) == 1 and U(st[0].value) == "length" and (syn_dominates(st[0], over[0]) or (st[0].lineno < over[0].lineno and set(guard_texts(st[0])) == g))
         ld = [a for a in walk_body(af.body) if isinstance(a, ast.Assign) and U(a.targets[0]) == "length"]
         ok = ok and len(ld) == 1 and U(ld[0].value) == "len(str(%s))" % p[3]
         others = [a for a in walk_body(af.body) if isinstance(a, ast.Assign) and U(a.targets[0]).startswith(p[2] + "[") and a is not st[0]] if st else []
@@ -177,10 +182,20 @@ def r4_dispatch(cx, mods):
             else:
                 break
         conds = [U(c.test) for c in chain]
-        cx.require(conds == ["%s == '%s'" % (tv, s) for s in SPECIAL], chain[0], "%s dispatches the special types skip / metadata / metadata_key, everything else generically" % q,
+        delegated = False
+        if len(chain) == 1 and isinstance(chain[0].test, ast.Compare) and len(chain[0].test.ops) == 1 and isinstance(chain[0].test.ops[0], ast.In) and U(chain[0].test.left) == tv \
+                and isinstance(chain[0].test.comparators[0], (ast.Tuple, ast.List, ast.Set)) and sorted(const_str(e) or "" for e in chain[0].test.comparators[0].elts) == sorted(SPECIAL):
+            # the special types are handed to the base evaluator's handle_result (which is checked as a definition of its own)
+            body = [s_ for s_ in chain[0].body if not (isinstance(s_, ast.Expr) and isinstance(s_.value, ast.Constant))]
+            delegated = len(body) == 1 and isinstance(body[0], ast.Expr) and isinstance(body[0].value, ast.Call) and call_attr(body[0].value) == "handle_result" \
+                and U(body[0].value.func.value).startswith("super(") and [U(a) for a in body[0].value.args] == [plugin, r] and len(defs) >= 2
+        cx.require(delegated or conds == ["%s == '%s'" % (tv, s) for s in SPECIAL], chain[0], "%s dispatches the special types skip / metadata / metadata_key, everything else generically" % q,
                    construct="branches: %s" % conds)
-        sk = [x for x in find_calls(chain[0].body, attr="append")]
-        cx.require(len(sk) == 1 and U(sk[0].func.value) == "self.rule_skips" and U(sk[0].args[0]) == r, chain[0], "%s records a skip response in rule_skips" % q, construct=short(sk[0]) if sk else "(none)")
+        if delegated:
+            cx.ok(chain[0], "%s leaves skip / metadata / metadata_key to the base evaluator" % q, construct=short(chain[0].body[-1], 80))
+        else:
+            sk = [x for x in find_calls(chain[0].body, attr="append")]
+            cx.require(len(sk) == 1 and U(sk[0].func.value) == "self.rule_skips" and U(sk[0].args[0]) == r, chain[0], "%s records a skip response in rule_skips" % q, construct=short(sk[0]) if sk else "(none)")
         generic = chain[-1].orelse
         aps = [x for x in find_calls(generic, attr="append")]
         ok = len(aps) == 1 and U(aps[0].func.value) == "self.results[%s]" % tv and enclosing(aps[0], (ast.For, ast.While)) is None and not guard_texts(aps[0], stop=chain[-1])
